@@ -288,7 +288,9 @@ func VerifC01_TwoBuilds() {
 		sym.Assert(false, "first policy must assemble")
 		return
 	}
-	b2 := Builder{Allow: names[:split2], Trace: names[split2:], Default: def}
+	// the second policy has its own default action (same or different lists)
+	def2 := Action(sym.U32("default2"))
+	b2 := Builder{Allow: names[:split2], Trace: names[split2:], Default: def2}
 	f, err := b2.Build()
 	sym.Assert(err == nil, "second policy must assemble")
 	if err != nil {
@@ -309,5 +311,20 @@ func VerifC01_TwoBuilds() {
 			}
 			return
 		}
+	}
+	if nr < x32Bit {
+		var wantDefault uint32
+		switch uint32(def2) & 0xffff {
+		case 1:
+			wantDefault = retAllow
+		case 2:
+			wantDefault = retErrno
+		case 3:
+			wantDefault = retTrace
+		default:
+			wantDefault = retKillProcess
+		}
+		sym.Reach("second-default")
+		sym.Assert(ret&retActionFull == wantDefault, "second filter must apply its own default action (not an earlier policy's)")
 	}
 }
